@@ -85,16 +85,18 @@ class _SeededUuid:
         return uuid.UUID(int=self.rng.getrandbits(128), version=4)
 
 
-def build_fixture(path, seed=10):
+def build_fixture(path, full=True, seed=10):
+    """full=False (quick tier) leaves out the classes that add no mechanism of their own: GIFtools / no-type / theme groups,
+    no-type object, MT, tipper pair, airborne magnetics."""
     old = uuid.uuid4
     uuid.uuid4 = _SeededUuid(seed)
     try:
-        return _build_fixture(path)
+        return _build_fixture(path, full)
     finally:
         uuid.uuid4 = old
 
 
-def _build_fixture(path):
+def _build_fixture(path, full):
     """One file with: nested groups (container, SimPEG with options, UIJson, GIFtools, no-type, a drillhole group
     with two concatenated holes, depth + interval + text data and two property groups), objects of 20 classes
     (incl. a DC survey pair, an airborne TEM pair with a property group in its metadata, a tipper pair), data of
@@ -115,9 +117,10 @@ def _build_fixture(path):
         sg.options = {"a": 1, "forward_only": False}
         ug = G.UIJsonGroup.create(ws, name="uij")
         ug.options = {"title": "t"}
-        G.GiftoolsGroup.create(ws, name="gif")
-        G.NoTypeGroup.create(ws, name="ntg")
-        G.AirborneTheme.create(ws, name="theme")
+        if full:
+            G.GiftoolsGroup.create(ws, name="gif")
+            G.NoTypeGroup.create(ws, name="ntg")
+            G.AirborneTheme.create(ws, name="theme")
 
         def mk(cls, name, **kw):
             args = CREATE_KW.get(cls, dict)()
@@ -148,7 +151,8 @@ def _build_fixture(path):
         mk("BlockModel", "bm")
         mk("Octree", "oct")
         mk("Label", "label")
-        mk("NoTypeObject", "nto")
+        if full:
+            mk("NoTypeObject", "nto")
         mk("DrapeModel", "drape")
         mk("GeoImage", "img")
         dh = mk("Drillhole", "dh")
@@ -165,10 +169,11 @@ def _build_fixture(path):
         arx.channels = [1e-3, 2e-3]
         chans = arx.add_data({"c1": {"values": np.arange(4.0)}, "c2": {"values": np.arange(4.0)}})
         arx.edit_metadata({"Property groups": arx.add_data_to_group(chans, "Hz")})
-        mk("MTReceivers", "mt")
-        trx = mk("TipperReceivers", "tip_rx")
-        trx.base_stations = mk("TipperBaseStations", "tip_base")
-        mk("AirborneMagnetics", "amag")
+        if full:
+            mk("MTReceivers", "mt")
+            trx = mk("TipperReceivers", "tip_rx")
+            trx.base_stations = mk("TipperBaseStations", "tip_base")
+            mk("AirborneMagnetics", "amag")
         dhg = G.DrillholeGroup.create(ws, name="dhg")
         well = mk("Drillhole", "well", parent=dhg, surveys=np.array([[0.0, 0, -90], [10, 0, -90], [20, 0, -80]]))
         well.add_data({"cdd": {"depth": np.array([1.0, 2.0, 3.0]), "values": np.array([1.0, 2.0, 3.0])}},
